@@ -206,6 +206,7 @@ func (p c15) Run(c *core.Ctx, idx int) {
 		o := dp.DefaultGen()
 		o.Choices = idx%3 == 0 || idx%6 == 1 // with the augmenting module half of the time: cases and case members from another module
 		o.Aug = idx%3 == 1
+		o.Sub = idx%3 == 2 // some top-level nodes written in a submodule: they are the module's own in data
 		o.Presence = true
 		o.MaxDepth = 2 + r.Intn(3)
 		if idx%4 == 3 {
@@ -222,8 +223,8 @@ func (p c15) Run(c *core.Ctx, idx int) {
 		do.EmptyLists = true
 		t = dp.GenTree(r, s, do)
 	}
-	wit := func() string { return "schema:\n" + s.Yang() + s.AugYang() + "tree:\n" + t.Dump(s) }
-	c.SetSample(map[string]interface{}{"yang": head(s.Yang()+s.AugYang(), 3000), "tree": head(t.Dump(s), 2000)})
+	wit := func() string { return "schema:\n" + s.Yang() + s.AugYang() + s.SubYang() + "tree:\n" + t.Dump(s) }
+	c.SetSample(map[string]interface{}{"yang": head(s.Yang()+s.AugYang()+s.SubYang(), 3000), "tree": head(t.Dump(s), 2000)})
 	src := dp.NewStore(s, t)
 	b := src.Browser()
 
